@@ -1,6 +1,7 @@
 import NauyacaVerif.Fs.Upload
 
-/-! Lemmas about M-Upload: case analysis of `handleUpload`, the file map under effects. -/
+/-! Lemmas about M-Upload: case analysis of `handleUpload`, the file map and the directory set
+    under effects. -/
 set_option linter.unusedSimpArgs false
 namespace Fs
 
@@ -63,53 +64,105 @@ theorem inside_tempPath {c : UCfg} {t : Path} (h : inside c.dir t = true) (hne :
 
 /-! ### directory creation -/
 theorem mkdirWalk_shape (os : OS) (c : UCfg) (f : Faults) : ∀ (rest : List Name) (cur : Path) (made : Nat),
-    ∀ e ∈ (mkdirWalk os c f cur rest made).2, ∃ q, e = .mkdir (cur ++ q) ∧ q ≠ [] ∧ q <+: rest := by
+    ∀ p ∈ (mkdirWalk os c f cur rest made).2, ∃ q, p = cur ++ q ∧ q ≠ [] ∧ q <+: rest := by
   intro rest
   induction rest with
-  | nil => intro cur made e he; simp [mkdirWalk] at he
+  | nil => intro cur made p hp; simp [mkdirWalk] at hp
   | cons n rest ih =>
-    intro cur made e he
-    have lift : ∀ made', e ∈ (mkdirWalk os c f (cur ++ [n]) rest made').2 →
-        ∃ q, e = .mkdir (cur ++ q) ∧ q ≠ [] ∧ q <+: n :: rest := by
+    intro cur made p hp
+    have lift : ∀ made', p ∈ (mkdirWalk os c f (cur ++ [n]) rest made').2 →
+        ∃ q, p = cur ++ q ∧ q ≠ [] ∧ q <+: n :: rest := by
       intro made' h'
-      obtain ⟨q, rfl, _, hq⟩ := ih (cur ++ [n]) made' e h'
+      obtain ⟨q, rfl, _, hq⟩ := ih (cur ++ [n]) made' p h'
       refine ⟨n :: q, by simp, by simp, ?_⟩
       obtain ⟨s, rfl⟩ := hq
       exact ⟨s, by simp⟩
-    unfold mkdirWalk at he
-    split at he
-    · exact lift _ he
-    · split at he
-      · simp at he
-      · split at he
-        · simp at he
-        · simp only [consEff, List.mem_cons] at he
-          rcases he with rfl | he
+    unfold mkdirWalk at hp
+    split at hp
+    · exact lift _ hp
+    · split at hp
+      · simp at hp
+      · split at hp
+        · simp at hp
+        · simp only [consPath, List.mem_cons] at hp
+          rcases hp with rfl | hp
           · exact ⟨[n], rfl, by simp, ⟨rest, by simp⟩⟩
-          · exact lift _ he
-    · simp at he
+          · exact lift _ hp
+    · simp at hp
+
+/-- effects that only concern directories -/
+def Effect.isDirOp : Effect → Bool
+  | .mkdir _ => true
+  | .rmdir _ => true
+  | _ => false
 
 theorem applyAll_append (fs : Files) (a b : List Effect) : applyAll fs (a ++ b) = applyAll (applyAll fs a) b := by
   simp [applyAll, List.foldl_append]
 
-theorem applyAll_mkdirs (fs : Files) (l : List Effect) (h : ∀ e ∈ l, ∃ p, e = .mkdir p) : applyAll fs l = fs := by
+theorem applyAll_dirOps (fs : Files) (l : List Effect) (h : ∀ e ∈ l, e.isDirOp = true) : applyAll fs l = fs := by
   induction l with
   | nil => rfl
   | cons e l ih =>
-    obtain ⟨p, rfl⟩ := h e (by simp)
-    simp only [applyAll, List.foldl_cons, applyEffect]
-    exact ih (fun e he => h e (by simp [he]))
+    have he := h e (by simp)
+    have hl : applyAll fs (e :: l) = applyAll (applyEffect fs e) l := rfl
+    rw [hl]
+    cases e <;> simp [Effect.isDirOp] at he <;> simp only [applyEffect] <;> exact ih (fun e he => h e (by simp [he]))
 
-theorem mkParents_only_mkdir (os : OS) (c : UCfg) (f : Faults) (t : Path) :
-    ∀ e ∈ (mkParents os c f t).2, ∃ p, e = .mkdir p := by
-  intro e he
-  obtain ⟨q, rfl, _, _⟩ := mkdirWalk_shape os c f _ _ _ e he
-  exact ⟨_, rfl⟩
+theorem made_dirOps (os : UOS) (c : UCfg) (f : Faults) (t : Path) : ∀ e ∈ made os c f t, e.isDirOp = true := by
+  intro e he; simp only [made, List.mem_map] at he; obtain ⟨p, _, rfl⟩ := he; rfl
+
+theorem undo_dirOps (os : UOS) (c : UCfg) (f : Faults) (t : Path) : ∀ e ∈ undo os c f t, e.isDirOp = true := by
+  intro e he; simp only [undo, List.mem_map] at he; obtain ⟨p, _, rfl⟩ := he; rfl
+
+/-! ### the directory set -/
+theorem dirsAfter_append (ds : List Path) (a b : List Effect) : dirsAfter ds (a ++ b) = dirsAfter (dirsAfter ds a) b := by
+  simp [dirsAfter, List.foldl_append]
+
+theorem dirsAfter_mkdirs (ds ps : List Path) : dirsAfter ds (ps.map .mkdir) = ds ++ ps := by
+  induction ps generalizing ds with
+  | nil => simp [dirsAfter]
+  | cons p ps ih =>
+    have : dirsAfter ds ((p :: ps).map .mkdir) = dirsAfter (ds ++ [p]) (ps.map .mkdir) := rfl
+    rw [this, ih]; simp
+
+theorem dirsAfter_rmdirs (ds qs : List Path) : dirsAfter ds (qs.map .rmdir) = ds.filter (fun d => !qs.contains d) := by
+  induction qs generalizing ds with
+  | nil =>
+    simp only [dirsAfter, List.map_nil, List.foldl_nil, List.contains_nil, Bool.not_false]
+    exact (List.filter_eq_self.mpr (fun _ _ => rfl)).symm
+  | cons q qs ih =>
+    have : dirsAfter ds ((q :: qs).map .rmdir) = dirsAfter (ds.filter (· != q)) (qs.map .rmdir) := rfl
+    rw [this, ih, List.filter_filter]
+    congr 1
+    funext d
+    by_cases hd : d = q
+    · subst hd; simp
+    · have h1 : (d == q) = false := by simp [hd]
+      have h2 : (d != q) = true := by simp [hd]
+      simp only [List.contains_cons, h1, h2, Bool.false_or, Bool.and_true]
+
+theorem dirsAfter_noDir (ds : List Path) (l : List Effect) (h : ∀ e ∈ l, e.isDirOp = false) : dirsAfter ds l = ds := by
+  induction l with
+  | nil => rfl
+  | cons e l ih =>
+    have he := h e (by simp)
+    have hl : dirsAfter ds (e :: l) = dirsAfter (dirEffect ds e) l := rfl
+    rw [hl]
+    cases e <;> simp [Effect.isDirOp] at he <;> simp only [dirEffect] <;> exact ih (fun e he => h e (by simp [he]))
+
+/-- creating directories, doing things that are not directory operations, and removing the same
+    directories again leaves no new directory -/
+theorem dirsAfter_made_undo (ps : List Path) (mid : List Effect) (h : ∀ e ∈ mid, e.isDirOp = false) :
+    dirsAfter [] (ps.map .mkdir ++ mid ++ ps.reverse.map .rmdir) = [] := by
+  rw [dirsAfter_append, dirsAfter_append, dirsAfter_mkdirs, dirsAfter_noDir _ _ h, dirsAfter_rmdirs]
+  simp only [List.nil_append, List.filter_eq_nil_iff]
+  intro d hd
+  simp [hd]
 
 /-! ### case analysis -/
 def Guard (c : UCfg) (r : UReq) : Prop := authOk c r = true ∧ r.size ≤ c.maxSize ∧ typeOk c r = true
 
-theorem handleUpload_cases (os : OS) (c : UCfg) (f : Faults) (r : UReq) :
+theorem handleUpload_cases (os : UOS) (c : UCfg) (f : Faults) (r : UReq) :
     ((handleUpload os c f r).2 = [] ∧ (handleUpload os c f r).1 ≠ .s20) ∨
     (∃ t, Guard c r ∧ r.size = 0 ∧ c.enableDelete = true ∧ os.resolve (c.dir ++ r.comps) = some t ∧
         handleUpload os c f r = deleteAt os c f t) ∨
@@ -145,13 +198,13 @@ theorem handleUpload_cases (os : OS) (c : UCfg) (f : Faults) (r : UReq) :
       · left; simp [h1, h2, h3]
   · left; simp [h1]
 
-theorem deleteAt_cases (os : OS) (c : UCfg) (f : Faults) (t : Path) :
+theorem deleteAt_cases (os : UOS) (c : UCfg) (f : Faults) (t : Path) :
     ((deleteAt os c f t).2 = [] ∧ (deleteAt os c f t).1 ≠ .s20) ∨
     (inside c.dir t = true ∧ os.kind t ≠ .missing ∧
       (deleteAt os c f t = (.s20, [.unlink t true]) ∨ deleteAt os c f t = (.s40, [.unlink t false]))) := by
   unfold deleteAt
   by_cases h1 : inside c.dir t = true
-  · by_cases h2 : t.any c.tooLong = true
+  · by_cases h2 : probeLong os.toOS c c.dir (t.drop c.dir.length) = true
     · left; simp [h1, h2]
     · by_cases h3 : os.kind t = .missing
       · left; simp [h1, h2, h3]
@@ -162,24 +215,32 @@ theorem deleteAt_cases (os : OS) (c : UCfg) (f : Faults) (t : Path) :
         · right; simp only [h1, h2, h3, h4]; simp
   · left; simp [h1]
 
-theorem store_cases (os : OS) (c : UCfg) (f : Faults) (t : Path) (b : Bytes) :
-    store os c f t b = (.s40, (mkParents os c f t).2) ∨
-    (∃ k, store os c f t b = (.s40, (mkParents os c f t).2 ++
-        [.writeTemp (tempPath c t) (b.take k) false, .unlink (tempPath c t) true])) ∨
-    store os c f t b = (.s40, (mkParents os c f t).2 ++
-        [.writeTemp (tempPath c t) b true, .rename (tempPath c t) t false, .unlink (tempPath c t) true]) ∨
-    store os c f t b = (.s20, (mkParents os c f t).2 ++
-        [.writeTemp (tempPath c t) b true, .rename (tempPath c t) t true]) := by
+/-- the five ways `store` can end -/
+theorem store_cases (os : UOS) (c : UCfg) (f : Faults) (t : Path) (b : Bytes) :
+    store os c f t b = (.s40, []) ∨
+    store os c f t b = (.s40, made os c f t ++ undo os c f t) ∨
+    (∃ k, store os c f t b = (.s40, made os c f t ++
+        [.writeTemp (tempPath c t) (b.take k) false, .unlink (tempPath c t) true] ++ undo os c f t) ∧
+        os.lexists (tempPath c t) = false) ∨
+    (store os c f t b = (.s40, made os c f t ++
+        [.writeTemp (tempPath c t) b true, .rename (tempPath c t) t false, .unlink (tempPath c t) true] ++ undo os c f t) ∧
+        os.lexists (tempPath c t) = false) ∨
+    (store os c f t b = (.s20, made os c f t ++
+        [.writeTemp (tempPath c t) b true, .rename (tempPath c t) t true]) ∧ os.lexists (tempPath c t) = false) := by
   unfold store
-  by_cases h1 : (mkParents os c f t).1 = true
-  · by_cases h2 : c.tooLong (tempName c.pid (t.getLast?.getD "")) = true
-    · left; simp [h1, h2]
-    · cases h3 : f.writeFailAfter with
-      | some k => right; left; exact ⟨k, by simp [h1, h2]⟩
-      | none =>
-        by_cases h4 : (!f.renameOk || decide (os.kind t = .dir)) = true
-        · right; right; left; simp only [h1, h2, h4]; simp
-        · right; right; right; simp only [h1, h2, h4]; simp
-  · left; simp [h1]
+  by_cases h0 : probeLong os.toOS c c.dir (t.dropLast.drop c.dir.length) = true
+  · left; simp [h0]
+  · by_cases h1 : (mkParents os c f t).1 = true
+    · by_cases h2 : (os.lexists (tempPath c t) || !f.openOk) = true
+      · right; left; simp only [h0, h1, h2]; simp
+      · have hl : os.lexists (tempPath c t) = false := by
+          cases h : os.lexists (tempPath c t) <;> simp_all
+        cases h3 : f.writeFailAfter with
+        | some k => right; right; left; exact ⟨k, by simp only [h0, h1, h2]; simp, hl⟩
+        | none =>
+          by_cases h4 : (!f.renameOk || decide (os.kind t = .dir) || c.tooLong (t.getLast?.getD "")) = true
+          · right; right; right; left; exact ⟨by simp only [h0, h1, h2, h4]; simp, hl⟩
+          · right; right; right; right; exact ⟨by simp only [h0, h1, h2, h4]; simp, hl⟩
+    · right; left; simp [h0, h1]
 
 end Fs
